@@ -8,7 +8,7 @@
    A result `Ok ...` also says: no edge / mesh / accumulator access was out of bounds and no search ran away. *)
 From Coq Require Import ZArith QArith List Bool Permutation.
 From Abacus.Common Require Import Arr.
-From Abacus.C08 Require Import Parts Spec Model Gen ProofsSearch Proofs.
+From Abacus.C08 Require Import Parts Spec Model Gen ProofsSearch Proofs ProofsExt.
 Import ListNotations.
 Local Open Scope Z_scope.
 
@@ -124,3 +124,34 @@ Theorem thread_independent : forall n E M W T1 T2 order1 order2 sched1 sched2,
   bin_kppi kppi_gen n E M W T1 order1 sched1 = bin_kppi kppi_gen n E M W T2 order2 sched2.
 Proof. exact thread_independent_lemma. Qed.
 Print Assumptions thread_independent.
+
+(* bin_means (extended): the per-bin weighted sum the kernels return — [kmu_spec_wsums], sums over the stored half with
+   multiplicities — is the sum of the mesh value over exactly the modes of the FULL mesh in that bin, the mesh being
+   extended to the full mesh by Hermitian symmetry ([full_val]: the value at (a, b, c), c beyond the stored half, is the
+   stored value at (-a, -b, -c)); the reported mean is this sum divided by the count of bin_kmu_counts *)
+Theorem bin_means : forall n E M W b m, 0 < n ->
+  kmu_full_wsum n E M W b m = kmu_half_wsum n E M W b m.
+Proof. exact bin_means_full_lemma. Qed.
+Print Assumptions bin_means.
+
+(* pole0_is_mu_average (extended): on the arrays bin_kmu returns, wedge mean x wedge count = wedge sum for every wedge
+   (also the empty ones), and (l = 0 pole) x N_mode_poles = sum over mu of the wedge sums: the monopole is the
+   mode-weighted average over mu of the wedge means *)
+Theorem pole0_is_mu_average : forall n E M W b,
+  0 < n -> 0 <= b < len E - 1 ->
+  let Nmu := len M - 1 in
+  let cnt := kmu_spec_counts n E M in
+  let ws := kmu_spec_wsums n E M W in
+  let at_ (arr : list Z) (m : Z) := nth (Z.to_nat (b * Nmu + m)) arr 0 in
+  (forall m, 0 <= m < Nmu -> (mean_of (at_ ws m) (at_ cnt m) * inject_Z (at_ cnt m) == inject_Z (at_ ws m))%Q) /\
+  (mean_of (row_sum Nmu ws b) (row_sum Nmu cnt b) * inject_Z (row_sum Nmu cnt b)
+     == inject_Z (sumZ 0 Nmu (fun m => at_ ws m)))%Q.
+Proof. exact pole0_is_mu_average_lemma. Qed.
+Print Assumptions pole0_is_mu_average.
+
+(* P_n_is_legendre (extended): the explicit sum P_n evaluates (hand model [P_n_even] of the loop of P_n, as a polynomial
+   in x = mu^2) is the Legendre polynomial of the Bonnet recursion, for the even orders up to the documented maximum 10 *)
+Theorem P_n_is_legendre : forall l, In l [0; 2; 4; 6; 8; 10] ->
+  forall mu : Q, (P_n_even (mu * mu) l == legendre (Z.to_nat l) mu)%Q.
+Proof. exact P_n_is_legendre_lemma. Qed.
+Print Assumptions P_n_is_legendre.
